@@ -770,6 +770,21 @@ def _locals_in(t):
     return [s for s in subterms(t) if s[0] == 'local']
 
 
+def _resolve_arith_locals(f, t, depth=0):
+    """`auto moved = pos + EpsilonRecursive + 2;`: a single-definition local whose initialiser is pure arithmetic over other
+    variables and constants (no call, no dereference) stands for that arithmetic"""
+    if isinstance(t, tuple):
+        if t and t[0] == 'local' and len(t) == 3 and depth < 5:
+            init = f.single_def(t[2])
+            if init:
+                it = norm_tparams(_strip_cast(f.term(init, inline=False)))
+                if it[0] == 'op' and len(it) == 4 and it[1] in ('+', '-') and not any(isinstance(x, tuple) and x and x[0] in ('call', 'deref', 'index', 'construct', 'phi', 'lambda', 'cond') for x in subterms(it)):
+                    return _resolve_arith_locals(f, it, depth + 1)
+            return t
+        return tuple(_resolve_arith_locals(f, x, depth) for x in t)
+    return t
+
+
 def rule_window_form(ctx, which, units=None):
     """per level: lo = level_begin + SUB(pos, EpsilonRecursive+1); binary arm: hi = level_begin + ADD(pos, EpsilonRecursive, level_size)"""
     obs = []
@@ -788,6 +803,7 @@ def rule_window_form(ctx, which, units=None):
             base, off = _split_base_offset(norm_tparams(expand_calls(f.unit, f.term(d['init'], inline=False))))
             if base is None:
                 continue
+            off = _resolve_arith_locals(f, off)
             offl = [x for x in _locals_in(off)]
             if not offl:
                 continue
@@ -864,10 +880,13 @@ def rule_window_form(ctx, which, units=None):
                 tt = _strip_cast(tt)
                 if not (tt[0] == 'call' and tt[1] == 'std::min'):
                     src_ok = False
-            if not src_ok:
-                ok, why = False, f"`{posv[1]}` is not (only) the capped position estimate"
+            und = False
+            if not src_ok and ok:
+                # the window is centred on a variable this rule cannot identify with the capped estimate (an intermediate local, a
+                # helper with an explicit branch instead of std::min): the cap itself is CAP's obligation - not a verdict here
+                ok, und, why = False, True, f"`{posv[1]}` is not recognised as the capped position estimate"
             obs.append(Ob('WINDOW-FORM', f, d['decl'], req, f"`{d['name']} = {fmt_term(base)[:30]} + {fmt_term(off)[:110]}`" + ('' if ok else f" — {why}"),
-                          OK if ok else VIOLATED, arm=role))
+                          OK if ok else (UNDECIDED if und else VIOLATED), arm=role))
         if found_lo == 0:
             # nothing of the shape this rule knows (a local `lo = level_begin + f(pos)`): the routing may be written on indices or
             # without a named window start - not a verdict
